@@ -1,6 +1,7 @@
 from __future__ import annotations
 
 import enum
+import re
 
 from cohdl._core._ir import repr as ir
 from cohdl._core._type_qualifier import (
@@ -291,7 +292,25 @@ class VhdlAssembler:
 
             output_ports = []
 
+            # names of the entity interface are printed verbatim
+            interface_names = set()
+
+            def check_interface_name(kind, name):
+                assert re.fullmatch(
+                    "[A-Za-z](_?[A-Za-z0-9])*", name
+                ), f"{kind} name '{name}' is not a legal VHDL identifier"
+                assert (
+                    name.lower() not in module_scope._used_names
+                ), f"{kind} name '{name}' is reserved in VHDL"
+                assert (
+                    name.lower() not in interface_names
+                ), f"{kind} name '{name}' is used twice (VHDL is case insensitive)"
+
+            check_interface_name("entity", inp.info().name)
+
             for name, port in inp.port_declarations().items():
+                check_interface_name("port", name)
+                interface_names.add(name.lower())
                 entity_scope.declare(port, name_hint=name)
 
                 if port.direction() == Port.Direction.OUTPUT:
